@@ -18,6 +18,7 @@ import SSEPyVerif.Proofs.Schemes.ChainCfg
 import SSEPyVerif.Proofs.Schemes.SSE2
 import SSEPyVerif.Proofs.Schemes.PiPtr
 import SSEPyVerif.Proofs.Schemes.ANSS16
+import SSEPyVerif.Proofs.Schemes.CT14
 namespace SSEPy.C01
 open SSEPy.Sch SSEPy.Sch.Chain
 
@@ -83,6 +84,26 @@ theorem ANSS16.search_stored (raw : RawCfg) (cfg : ANSSCfg) (hcfg : ANSS16.cfgBu
   ANSS16.search_present cfg lv
     (fun key iv msg c hiv he => ske_dec_enc lv hl cfg.ske (ANSS16.cfgBuild_plain cfg raw hcfg) key iv msg c hiv he)
     hl.enc_len K db t t' edb hs hg w ids hidlen hpad hnc
+
+/-- CT14 (schemes/CT14/Pi): the list is cut greedily into power-of-two chunks (`chunkAt`: a chunk at level j iff bit j of the
+    length is set, starting where the higher bits end); the descending level scan of the search reassembles exactly the
+    list — every length, in particular 1, powers of two and 2^k ± 1.  Hypotheses as for ANSS16, plus: at the levels where
+    the keyword has no chunk its label is not stored. -/
+theorem CT14.search_stored (raw : RawCfg) (cfg : CT14Cfg) (hcfg : CT14.cfgBuild raw = .ok cfg) (lv : Leaves)
+    (hl : LeafLaws lv) (K : Bytes) (db : DB) (t t' : Tape) (HT : List Table)
+    (hs : CT14.setup cfg lv K db t = .ok (HT, t')) (hg : GoodTape t)
+    (w : Bytes) (ids : List Bytes) (hidlen : ∀ x ∈ ids, x.length = cfg.idSize.toNat)
+    (hpad : ∀ pdb t1, padLoop cfg.idSize.toNat (2 ^ clog2 db.total) (2 ^ clog2 db.total + 1) db db.total t = .ok (pdb, t1) →
+      (w, ids) ∈ pdb)
+    (hnc : ∀ TL, CT14.setupLists cfg lv K db t = .ok (TL, t') → CT14.NoColl cfg lv K TL w ids) :
+    ∃ tk, CT14.token cfg lv K w = .ok tk ∧ CT14.search cfg lv HT tk = .ok ids :=
+  CT14.search_present cfg lv
+    (fun key iv msg c hiv he => ske_dec_enc lv hl cfg.ske (CT14.cfgBuild_plain cfg raw hcfg) key iv msg c hiv he)
+    hl.enc_len K db t t' HT hs hg w ids hidlen hpad hnc
+
+/-- the greedy decomposition covers the list exactly once, in order (non-vacuity of `chunkAt` / `scan`) -/
+theorem CT14.decomposition_covers (ids : List Bytes) (J : Nat) (h : ids.length < 2 ^ J) : CT14.scan ids J = ids :=
+  CT14.scan_all ids J h
 
 /-- SSE-2 (schemes/CGKO06/SSE2): the hypotheses are about this run's PRP values — the addresses of the stored postings
     are pairwise distinct and the address one past a list's end is not a stored address (both follow from the PRP being a
